@@ -1005,12 +1005,17 @@ pub fn c03_edge_pairs(seed: u64, nvals: u64) -> Phase {
 }
 
 /// Duplication: one legal construct of the data decoder's grammar delivered n times in a row, for EVERY count
-/// n = 1..=1600 (beyond the largest symbol's 1558 data codewords) and around powers of two up to 2^16, with
+/// n = 1..=1600 (beyond the largest symbol's 1558 data codewords), around powers of two up to 2^16 and around round
+/// decimal numbers up to 100 000, with
 /// and without a macro head. Counts - not values, positions or lengths - are what a fixed-capacity buffer,
 /// a narrow counter or a "cannot happen more than capacity / 2 times" estimate depends on.
 pub fn c05_repeated_atoms() -> Phase {
     const NATOMS: u64 = 18;
-    const EXTRA: [u64; 15] = [2047, 2048, 2049, 4095, 4096, 4097, 8191, 8192, 8193, 16384, 32767, 32768, 32769, 65535, 65537];
+    // around powers of two, and around round decimal numbers (limits are written in decimal as often as in binary)
+    const EXTRA: [u64; 40] = [
+        2047, 2048, 2049, 4095, 4096, 4097, 8191, 8192, 8193, 16384, 32767, 32768, 32769, 65535, 65537, 1997, 1998, 1999, 2000, 2001, 4999, 5000, 5001, 9997, 9998,
+        9999, 10000, 10001, 49999, 50000, 50001, 99996, 99997, 99998, 99999, 100000, 100001, 100002, 100003, 100004,
+    ];
     const DENSE: u64 = 1600;
     let per_atom = DENSE + EXTRA.len() as u64;
     let total = NATOMS * per_atom * 2;
@@ -1616,6 +1621,130 @@ pub fn huge_blank_arrays(prop: &'static str) -> Phase {
     };
     Phase {
         source: Source::Sweep { name: "sweep_pixel_counts_aliasing_modulo_2_pow_32".into(), prop: prop.into(), make: Box::new(make) },
+        runs: total,
+        wall_cap_s: 0,
+    }
+}
+
+/// One-sided margins: a valid rendering of every size with 1..8 modules (and up to the next multiple of 8, 16 and 32)
+/// of light or dark padding on ONE side - rows padded to a byte or word boundary, a crop that is off on one side.
+pub fn margin_symbols(prop: &'static str, seed: u64) -> Phase {
+    const NS: u64 = 11; // 1..=8, to a multiple of 8, of 16, of 32
+    let per_size = 4 * NS * 2;
+    let total = N_SIZES as u64 * per_size;
+    let make = move |_ctx: &Ctx, i: u64| -> Trace {
+        let si = (i / per_size) as usize;
+        let r = i % per_size;
+        let fill = (r % 2) as u32;
+        let side = ((r / 2) % 4) as u32;
+        let ni = r / 8;
+        let s = &SIZES[si];
+        let along = if side < 2 { s.cols } else { s.rows };
+        let pad_to = |m: usize| -> usize { if along % m == 0 { m } else { m - along % m } };
+        let n = match ni {
+            0..=7 => ni as usize + 1,
+            8 => pad_to(8),
+            9 => pad_to(16),
+            _ => pad_to(32),
+        };
+        Trace {
+            prop: prop.into(),
+            producer: Producer::Raw { size: si, data: seeded_data(seed, si, r) },
+            faults: vec![Fault::new("geo_frame", Op::GeoMargin { side, n: n as u32, fill })],
+        }
+    };
+    Phase {
+        source: Source::Sweep { name: "sweep_one_sided_margins".into(), prop: prop.into(), make: Box::new(make) },
+        runs: total,
+        wall_cap_s: 0,
+    }
+}
+
+/// One special byte in a run of printable ASCII: every control and high byte value (0x00-0x1F, 0x7F-0xFF) at every
+/// position 0..40 of a 41-character run, with the default charset and under ECI 3 / 4 / 26 - word-at-a-time and
+/// SIMD-style fast paths look at 8 or 16 bytes at once and must take every value at every lane.
+pub fn c05_special_byte_in_ascii_run() -> Phase {
+    const NPOS: u64 = 41;
+    const NECI: u64 = 4;
+    let specials: Vec<u8> = (0u16..=0x1F).chain(0x7F..=0xFF).map(|b| b as u8).collect();
+    let nsp = specials.len() as u64;
+    let total = nsp * NPOS * NECI;
+    let make = move |_ctx: &Ctx, i: u64| -> Trace {
+        let eci = [0u8, 4, 5, 27][(i % NECI) as usize];
+        let r = i / NECI;
+        let pos = (r % NPOS) as usize;
+        let b = specials[(r / NPOS) as usize];
+        let mut data: Vec<u8> = Vec::new();
+        if eci != 0 {
+            data.extend_from_slice(&[241, eci]);
+        }
+        for p in 0..NPOS as usize {
+            if p == pos {
+                if b < 128 {
+                    data.push(b + 1);
+                } else {
+                    data.push(235);
+                    data.push(b - 127);
+                }
+            } else {
+                data.push(b'a' + (p % 26) as u8 + 1);
+            }
+        }
+        Trace { prop: "C05".into(), producer: Producer::Stream { data }, faults: vec![] }
+    };
+    Phase {
+        source: Source::Sweep { name: "sweep_special_byte_in_ascii_run".into(), prop: "C05".into(), make: Box::new(make) },
+        runs: total,
+        wall_cap_s: 0,
+    }
+}
+
+/// Totals: in-radius damage whose TOTAL number of wrong codewords over all blocks is 127, 128, 129, 255, 256, 257
+/// (where a narrow counter wraps), the maximum blocks x t, and one less - spread evenly over the blocks or packed
+/// into the first ones, with seeded positions and values. Per-block families never aim at a sum.
+pub fn c03_total_error_counts(seed: u64) -> Phase {
+    const TARGETS: [usize; 6] = [127, 128, 129, 255, 256, 257];
+    const PER: u64 = (6 + 2) * 2 * 3;
+    let total = N_SIZES as u64 * PER;
+    let make = move |_ctx: &Ctx, i: u64| -> Trace {
+        let si = (i / PER) as usize;
+        let r = i % PER;
+        let s = &SIZES[si];
+        let variant = r % 3;
+        let packed = (r / 3) % 2 == 1;
+        let ti = (r / 6) as usize;
+        let cap = s.blocks * s.t();
+        let target = match ti {
+            0..=5 => TARGETS[ti],
+            6 => cap,
+            _ => cap.saturating_sub(1),
+        };
+        let mut faults = Vec::new();
+        if target >= 1 && target <= cap {
+            let mut w = vec![0usize; s.blocks];
+            if packed {
+                let mut left = target;
+                for x in w.iter_mut() {
+                    *x = left.min(s.t());
+                    left -= *x;
+                }
+            } else {
+                for (b, x) in w.iter_mut().enumerate() {
+                    *x = target / s.blocks + usize::from(b < target % s.blocks);
+                }
+            }
+            let mut rng = Rng::new(mix64(seed ^ mix64(i.wrapping_mul(0x9E3779B97F4A7C15))));
+            for (b, wb) in w.iter().enumerate() {
+                let pos = s.block_positions(b);
+                for j in rng.sample_distinct(pos.len(), (*wb).min(pos.len())) {
+                    faults.push(Fault::new("cw_subst", Op::CwXor { pos: pos[j] as u32, mask: rng.nonzero_byte() }));
+                }
+            }
+        }
+        Trace { prop: "C03".into(), producer: Producer::Raw { size: si, data: seeded_data(seed, si, variant) }, faults }
+    };
+    Phase {
+        source: Source::Sweep { name: "sweep_total_error_counts_codeword_stage_only".into(), prop: "C03".into(), make: Box::new(make) },
         runs: total,
         wall_cap_s: 0,
     }
